@@ -72,6 +72,7 @@ AMOUNTS = ["", "", "1/2 of the ", "50% of the ", "rest of the ", "remaining ", "
 
 def gen_doc(rng: random.Random) -> str:
     parts = ["# Title for 2\n"]
+    first_recipe_blocks: List[List[str]] = []
     nrec = rng.choice((1, 1, 2, 3))
     for ri in range(nrec):
         nblocks = rng.choice((1, 2, 2, 3))
@@ -102,7 +103,16 @@ def gen_doc(rng: random.Random) -> str:
                     lines.append(f"fry({body_ing})")
             fence = "new-recipe" if (bi == 0 and ri > 0) else "recipe"
             parts.append(f"```{fence}\n" + "\n".join(lines) + "\n```\n")
+            if ri == 0:
+                first_recipe_blocks.append(lines)
             parts.append(rng.choice(["", "Some prose.\n", "* a list\n"]))
+    if rng.random() < 0.2:
+        # an independent recipe that is textually IDENTICAL to the first one (same blocks, same names): its ids
+        # and links must still carry its own prefix (added by the coordinator after a seeded change keyed a
+        # render cache by the value-equal Recipe)
+        for bi, lines in enumerate(first_recipe_blocks):
+            fence = "new-recipe" if bi == 0 else "recipe"
+            parts.append(f"```{fence}\n" + "\n".join(lines) + "\n```\n")
     return "\n".join(parts)
 
 
